@@ -1,7 +1,6 @@
 package props
 
 import (
-	"bytes"
 	"encoding/json"
 	"fmt"
 	"net/http"
@@ -98,7 +97,8 @@ func (p *Pairing) out() protoreflect.MessageDescriptor {
 }
 
 func (p *Pairing) config() world.Config {
-	cfg := world.Config{Protocols: []vanguard.Protocol{world.FormToProtocol(p.Target)}, Codecs: p.TgtCodecs}
+	// a finite limit keeps hostile length fields from turning into multi-GiB allocations
+	cfg := world.Config{Protocols: []vanguard.Protocol{world.FormToProtocol(p.Target)}, Codecs: p.TgtCodecs, MaxMsg: 1 << 16}
 	if len(p.TgtComp) == 0 {
 		cfg.NoCompress = true
 	} else {
@@ -288,15 +288,33 @@ func canonMsg(codec string, desc protoreflect.MessageDescriptor, payload []byte)
 	if err != nil {
 		return fmt.Sprintf("unmarshalable:%x", payload)
 	}
-	var buf bytes.Buffer
-	if json.Compact(&buf, b) != nil {
+	// Normalise: JSON null is dropped. (protojson cannot distinguish an unset
+	// google.protobuf.Value field from one holding NullValue once EmitUnpopulated output is
+	// re-parsed; that is a property of the JSON mapping, not of the transcoder.)
+	var v any
+	if json.Unmarshal(b, &v) != nil {
 		return string(b)
 	}
-	// unknown fields are part of the content on proto->proto paths
-	if u := m.ProtoReflect().GetUnknown(); len(u) > 0 {
-		fmt.Fprintf(&buf, "+unknown:%x", []byte(u))
+	out, _ := json.Marshal(dropNulls(v))
+	return string(out)
+}
+
+func dropNulls(v any) any {
+	switch t := v.(type) {
+	case map[string]any:
+		for k, e := range t {
+			if e == nil {
+				delete(t, k)
+			} else {
+				t[k] = dropNulls(e)
+			}
+		}
+	case []any:
+		for i, e := range t {
+			t[i] = dropNulls(e)
+		}
 	}
-	return buf.String()
+	return v
 }
 
 // semBackend is a semantic (encoding-order independent) view of what the backend saw.
@@ -363,4 +381,19 @@ func semClient(form wire.Form, ex *world.Exchange, out protoreflect.MessageDescr
 		fmt.Fprintf(&sb, "rawbody=%x", r.BodyBytes.Bytes())
 	}
 	return sb.String()
+}
+
+// stackTop extracts the first vanguard frames of a panic stack.
+func stackTop(stack string) string {
+	lines := strings.Split(stack, "\n")
+	var out []string
+	for i := 0; i+1 < len(lines); i++ {
+		if strings.HasPrefix(lines[i], "connectrpc.com/vanguard.") || strings.HasPrefix(lines[i], "connectrpc.com/vanguard/vanguardgrpc.") {
+			out = append(out, strings.TrimSpace(lines[i])+" @ "+strings.TrimSpace(lines[i+1]))
+			if len(out) >= 6 {
+				break
+			}
+		}
+	}
+	return strings.Join(out, "\n")
 }
